@@ -104,7 +104,7 @@ def build(term, ctx):
             sk = opts['skip']
             kw['skip'] = Fn(sk['fn'], ctx) if 'fn' in sk else tuple(sk['tuple']) if 'tuple' in sk else sk['lit']
         if 'skip_exc' in opts:
-            kw['skip_exc'] = {'glom': GlomError, 'boom': RA.Boom, 'both': (GlomError, RA.Boom)}[opts['skip_exc']]
+            kw['skip_exc'] = {'glom': GlomError, 'boom': RA.Boom, 'both': (GlomError, RA.Boom), 'none': ()}[opts['skip_exc']]      # (): skip nothing
         return Coalesce(*[build(s, ctx) for s in term[1]], **kw)
     if k == 'call':
         func = Fn(term[1][1], ctx) if term[1][0] == 'fn' else build_T(term[1][1])
@@ -278,6 +278,7 @@ COAL_OPTS = [
     {'default_factory': 'mk'}, {'skip': {'lit': 1}}, {'skip': {'tuple': [1, 2, 5]}}, {'skip': {'fn': 'is_odd'}},
     {'skip_exc': 'boom'}, {'skip_exc': 'both'}, {'skip': {'lit': 1}, 'default': {'lit': None}},
     {'skip_exc': 'both', 'default_factory': 'mk'}, {'default': {'lit': SK}},
+    {'skip_exc': 'none'}, {'skip_exc': 'none', 'default': {'lit': 'dflt'}},
 ]
 
 
